@@ -16,11 +16,13 @@ vars == <<l, streams, handler, delivered, outAll, dead>>
 
 AllLegal(frames) == \A i \in DOMAIN frames : FrameClass(frames[i]) = "legal"
 
+RECURSIVE TotalBytes(_)
+TotalBytes(frames) == IF frames = <<>> THEN 0 ELSE Len(Head(frames)) + TotalBytes(Tail(frames))
 \* C15 for streams of legal frames answered by the device
 J_seq(frames, e, d1, o1, d2, o2) ==
     LET k == Completed(frames, d2)
         want == Replies(frames, k)
-    IN IF o2 = want THEN "ok"
+    IN IF o2 = want THEN (IF e.close /\ d2 < TotalBytes(frames) THEN "connection-closed-by-the-server-in-the-middle-of-a-legal-stream" ELSE "ok")
        ELSE IF Len(o2) > Len(want) \/ o2 # SubSeq(want, 1, Len(o2)) THEN
             (IF Len(e.out) > 0 /\ Len(o1) = Len(Replies(frames, Completed(frames, d1))) /\ k = Completed(frames, d1)
              THEN (IF Len(streams) > 1 /\ Len(e.bytes) = 0 THEN "bytes-sent-to-a-connection-that-asked-nothing"
